@@ -217,6 +217,12 @@ def sym_eq(a, b):
         if not terms:
             return True
         return z3.And(*terms) if len(terms) > 1 else terms[0]
+    # a str never equals a non-str object (e.g. an Enum member that is not a str subclass), same for bytes
+    for x, y in ((a, b), (b, a)):
+        if isinstance(x, SStr) and not isinstance(y, (SV, str)):
+            return False
+        if isinstance(x, SBytes) and not isinstance(y, (SV, bytes, bytearray)):
+            return False
     # different kinds (bytes vs str, int vs bytes ...) are unequal in Python
     kinds = [is_intlike, is_reallike, is_byteslike, is_strlike]
     ka = [k(a) for k in kinds]
